@@ -99,6 +99,7 @@ class Verdict:
         self.unsupported = False
         self.bad_refs = set()     # Manifest files for which some accepted Manifest holds a MANIFEST entry that does not match
         self.chain_why = {}
+        self.chain_holders = {}   # broken link -> Manifests holding the entries it fails
         self.partial = set()      # broken links that DO match the entry of one accepted parent Manifest and fail another's
 
     def as_dict(self):
@@ -174,6 +175,7 @@ class Model:
         # that the Manifests accepted so far hold for it
         while True:
             cand = {}
+            holders = {}
             for mp in list(loaded):
                 mdir = os.path.dirname(mp)
                 for e in loaded[mp]:
@@ -186,6 +188,7 @@ class Model:
                     if not (psw(subpath, sd) or (recursive and psw(sd, subpath))):
                         continue
                     cand.setdefault(full, []).append(e)
+                    holders.setdefault(full, []).append(mp)
             if not cand:
                 break
             for full in sorted(cand):
@@ -196,11 +199,12 @@ class Model:
                     continue
                 if fi.err is not None:
                     v.oserr.add(errno.errorcode.get(fi.err, str(fi.err)))
-                whys = [entry_matches(fi, e) for e in cand[full]]
-                whys = [w_ for w_ in whys if w_ is not None]
+                whys_all = [entry_matches(fi, e) for e in cand[full]]
+                whys = [w_ for w_ in whys_all if w_ is not None]
                 if whys:
                     v.chain.append(full)
                     v.chain_why[full] = whys[0]
+                    v.chain_holders[full] = [h for h, w_ in zip(holders[full], whys_all) if w_ is not None]
                     if len(whys) < len(cand[full]):
                         v.partial.add(full)
                     continue
